@@ -2,7 +2,7 @@
    PARTIAL in one respect: what the real notify backends do with a registered path (inotify etc.) is outside
    the model; the recording watcher of the harness implements notify's watch/unwatch contract. *)
 From Coq Require Import List NArith Bool String.
-From WX Require Import Fs.FsWorker Fs.FsProofs Fs.ConfigWatch Fs.ConfigRace.
+From WX Require Import Fs.FsWorker Fs.FsProofs Fs.ConfigWatch Fs.ConfigRace Gen.Changeable_gen Fs.Changeable.
 Import ListNotations.
 Open Scope N_scope.
 
@@ -68,3 +68,40 @@ Theorem C13_racy_order_refuted :
   let s := run racy [LN; LN; LN; LN; LN; LN; LAgain; LN; LI; LT; LN; LN; LN] in asleep racy s /\ rseen s <> cnt s.
 Proof. exact racy_order_refuted. Qed.
 Print Assumptions C13_racy_order_refuted.
+
+(* ---- reconfiguring from within a handler (lib/src/changeable.rs; the call and clone modes are translated from the source) *)
+Theorem C13_changeable_modes_of_the_source : src_call = Some GetThenCall /\ src_clone = Some Share.
+Proof. exact source_modes. Qed.
+Print Assumptions C13_changeable_modes_of_the_source.
+
+(* ... never deadlocks: whatever handlers do from within a call (replace any handler, their own included, call others, clone) *)
+Theorem C13_reconfig_never_deadlocks : forall l s, locked s = [] ->
+  match exec GetThenCall Share l s with Deadlock _ => False | _ => True end.
+Proof. exact never_deadlocks. Qed.
+Print Assumptions C13_reconfig_never_deadlocks.
+
+(* ... does not affect the invocation in progress, and takes effect for the next one *)
+Theorem C13_reconfig_from_within : forall h f0 g s sl,
+  lookup h (slot_of s) = Some sl -> lookup sl (value s) = Some f0 -> locked s = [] ->
+  exists s', exec GetThenCall Share [Call h [Replace h g]; Call h []] s = Done s' /\ trace s' = (h, g) :: (h, f0) :: trace s.
+Proof. exact replace_from_within. Qed.
+Print Assumptions C13_reconfig_from_within.
+
+(* ... and reaches every clone of the handle (the error hook of Watchexec::main calls through a clone made when main starts) *)
+Theorem C13_reconfig_reaches_clones : forall h h' f0 g s sl,
+  lookup h (slot_of s) = Some sl -> lookup sl (value s) = Some f0 -> locked s = [] -> h' <> h ->
+  exists s', exec GetThenCall Share [Clone h h'; Replace h g; Call h' []] s = Done s' /\ trace s' = (h', g) :: trace s.
+Proof. exact clones_share. Qed.
+Print Assumptions C13_reconfig_reaches_clones.
+
+Theorem C13_call_under_lock_refuted :
+  match exec CallUnderLock Share [Call 0 [Replace 0 1]; Call 0 []] init with Deadlock _ => True | _ => False end /\
+  invocations (exec GetThenCall Share [Call 0 [Replace 0 1]; Call 0 []] init) = [(0, 0); (0, 1)].
+Proof. exact call_under_lock_refuted. Qed.
+Print Assumptions C13_call_under_lock_refuted.
+
+Theorem C13_snapshot_clone_refuted :
+  invocations (exec GetThenCall Snapshot [Clone 0 7; Replace 0 1; Call 7 []] init) = [(7, 0)] /\
+  invocations (exec GetThenCall Share [Clone 0 7; Replace 0 1; Call 7 []] init) = [(7, 1)].
+Proof. exact snapshot_clone_refuted. Qed.
+Print Assumptions C13_snapshot_clone_refuted.
